@@ -1,3 +1,4 @@
+import Lean
 import VelaVerif.Model.PyRt
 /-!
 # Rewrite rules for symbolic execution of translated definitions (`Gen/Src*.lean`)
@@ -11,14 +12,79 @@ The tactic `py_exec [defs]` packages the rule set; `py_side` is its side-conditi
 -/
 namespace VelaVerif.PyRt
 
+/-! ### agreement of a translated function's outcome with a hand model's outcome -/
+
+/-- `s` (translated source, tagged result) and `m` (hand model over `Int` with its own error type) have
+    the same outcome: equal values, or both fail with error kinds related by `rel`. -/
+def Agrees {ε : Type} (rel : Err → ε → Prop) (s : M Num) (m : Except ε Int) : Prop :=
+  match s, m with
+  | .ok n, .ok v => n.v = v
+  | .error e, .error f => rel e f
+  | _, _ => False
+
+theorem agrees_ok {ε : Type} (rel : Err → ε → Prop) (t : Ty) (x y : Int) :
+    Agrees rel (.ok ⟨t, x⟩) (.ok y) = (x = y) := rfl
+theorem agrees_err {ε : Type} (rel : Err → ε → Prop) (e : Err) (f : ε) :
+    Agrees rel (.error e) (.error f) = rel e f := rfl
+theorem agrees_ok_err {ε : Type} (rel : Err → ε → Prop) (n : Num) (f : ε) :
+    Agrees rel (.ok n) (.error f) = False := rfl
+theorem agrees_err_ok {ε : Type} (rel : Err → ε → Prop) (e : Err) (y : Int) :
+    Agrees rel (.error e) (.ok y) = False := rfl
+
 /-! ### monad -/
+theorem ebind_ok {ε α β} (a : α) (f : α → Except ε β) : (Except.ok a >>= f) = f a := rfl
+theorem ebind_err {ε α β} (e : ε) (f : α → Except ε β) : ((Except.error e : Except ε α) >>= f) = Except.error e := rfl
+theorem epure_eq {ε α} (a : α) : (pure a : Except ε α) = Except.ok a := rfl
+theorem ebind_ite {ε α β} (c : Prop) [Decidable c] (x y : Except ε α) (f : α → Except ε β) :
+    ((if c then x else y) >>= f) = if c then x >>= f else y >>= f := by split <;> rfl
+theorem ethrow_eq {ε α} (e : ε) : (throw e : Except ε α) = Except.error e := rfl
+
+theorem ebind_congr {ε α β} {x x' : Except ε α} (f : α → Except ε β) (h : x = x') : (x >>= f) = (x' >>= f) := by rw [h]
+
+open Lean Meta Simp in
+/-- Pre-simproc for `x >>= f` in `Except`: evaluate `x` first and only then enter the continuation
+    (with the value substituted).  Keeps `simp` out of continuations whose argument is not known yet. -/
+simproc_decl bindStep (Bind.bind _ _) := fun e => do
+  let_expr Bind.bind m _ _ _ x f := e | return .continue
+  let m ← whnfR m
+  unless m.isAppOfArity ``Except 1 do return .continue
+  let r ← Simp.simp x
+  let x' := r.expr
+  -- proof of  x >>= f = x' >>= f
+  let mkStep (rhs : Expr) (pf2 : Expr) : SimpM Simp.Result := do
+    match r.proof? with
+    | none => return { expr := rhs, proof? := some pf2 }
+    | some h =>
+      let c ← mkAppM ``ebind_congr #[f, h]
+      return { expr := rhs, proof? := some (← mkEqTrans c pf2) }
+  if x'.isAppOfArity ``Except.ok 3 then
+    let v := x'.appArg!
+    let pf ← mkAppM ``ebind_ok #[v, f]
+    let rhs := (mkApp f v).headBeta
+    return .visit (← mkStep rhs pf)
+  if x'.isAppOfArity ``Except.error 3 then
+    let err := x'.appArg!
+    let pf ← mkAppM ``ebind_err #[err, f]
+    let some (_, _, rhs) := (← inferType pf).eq? | return .continue
+    return .done (← mkStep rhs pf)
+  if x'.isAppOfArity ``ite 5 then
+    let args := x'.getAppArgs
+    let pf ← mkAppOptM ``ebind_ite #[none, none, none, args[1]!, args[2]!, args[3]!, args[4]!, f]
+    let some (_, _, rhs) := (← inferType pf).eq? | return .continue
+    return .visit (← mkStep rhs pf)
+  -- stuck: keep the continuation unevaluated
+  match r.proof? with
+  | none => return .done { expr := e }
+  | some h =>
+    let c ← mkAppM ``ebind_congr #[f, h]
+    let some (_, _, rhs) := (← inferType c).eq? | return .continue
+    return .done { expr := rhs, proof? := some c }
+
 theorem bind_ok {α β} (a : α) (f : α → M β) : (Except.ok a >>= f) = f a := rfl
 theorem bind_err {α β} (e : Err) (f : α → M β) : ((Except.error e : M α) >>= f) = Except.error e := rfl
 theorem pure_eq {α} (a : α) : (pure a : M α) = Except.ok a := rfl
 theorem bind_ite {α β} (c : Prop) [Decidable c] (x y : M α) (f : α → M β) :
     ((if c then x else y) >>= f) = if c then x >>= f else y >>= f := by split <;> rfl
-theorem bind_assoc' {α β γ} (x : M α) (f : α → M β) (g : β → M γ) :
-    ((x >>= f) >>= g) = x >>= fun a => f a >>= g := by cases x <;> rfl
 
 theorem pyAssert_true : pyAssert true = .ok () := rfl
 theorem pyAssert_false : pyAssert false = .error .assert_ := rfl
@@ -31,6 +97,18 @@ theorem wrap_py (v : Int) : wrap .py v = v := rfl
 
 theorem wrap_id (t : Ty) (v : Int) (h : t.fits v) : wrap t v = v := by
   cases t <;> simp only [Ty.fits] at h <;> simp only [wrap] <;> omega
+
+theorem wrap_i8 (v : Int) (h : -128 ≤ v ∧ v ≤ 127) : wrap .i8 v = v := wrap_id .i8 v h
+theorem wrap_i16 (v : Int) (h : -32768 ≤ v ∧ v ≤ 32767) : wrap .i16 v = v := wrap_id .i16 v h
+theorem wrap_i32 (v : Int) (h : -2147483648 ≤ v ∧ v ≤ 2147483647) : wrap .i32 v = v := wrap_id .i32 v h
+theorem wrap_i64 (v : Int) (h : -9223372036854775808 ≤ v ∧ v ≤ 9223372036854775807) : wrap .i64 v = v :=
+  wrap_id .i64 v h
+theorem wrap_u8 (v : Int) (h : 0 ≤ v ∧ v ≤ 255) : wrap .u8 v = v := wrap_id .u8 v h
+theorem wrap_u16 (v : Int) (h : 0 ≤ v ∧ v ≤ 65535) : wrap .u16 v = v := wrap_id .u16 v h
+theorem wrap_u32 (v : Int) (h : 0 ≤ v ∧ v ≤ 4294967295) : wrap .u32 v = v := wrap_id .u32 v h
+
+theorem fits_eq_true (t : Ty) (v : Int) (h : t.fits v) : t.fits v = True := eq_true h
+theorem fits_eq_false (t : Ty) (v : Int) (h : ¬ t.fits v) : t.fits v = False := eq_false h
 
 theorem wrap_fits (t : Ty) (v : Int) : t.fits (wrap t v) := by
   cases t <;> simp only [Ty.fits, wrap] <;> omega
@@ -47,32 +125,32 @@ theorem coerce2_np_np (s t : Ty) (x y : Int) (hs : s ≠ .py) (ht : t ≠ .py) :
   cases s <;> cases t <;> first | exact absurd rfl hs | exact absurd rfl ht | rfl
 
 /-! ### operators on constructor-form operands -/
-theorem add_mk (a b : Num) : Num.add a b = coerce2 a b >>= fun r => .ok ⟨r.1, wrap r.1 (r.2.1 + r.2.2)⟩ := rfl
-theorem sub_mk (a b : Num) : Num.sub a b = coerce2 a b >>= fun r => .ok ⟨r.1, wrap r.1 (r.2.1 - r.2.2)⟩ := rfl
-theorem mul_mk (a b : Num) : Num.mul a b = coerce2 a b >>= fun r => .ok ⟨r.1, wrap r.1 (r.2.1 * r.2.2)⟩ := rfl
-theorem and_mk (a b : Num) : Num.and a b = coerce2 a b >>= fun r => .ok ⟨r.1, wrap r.1 (iand r.2.1 r.2.2)⟩ := rfl
-theorem or_mk (a b : Num) : Num.or a b = coerce2 a b >>= fun r => .ok ⟨r.1, wrap r.1 (ior r.2.1 r.2.2)⟩ := rfl
-theorem xor_mk (a b : Num) : Num.xor a b = coerce2 a b >>= fun r => .ok ⟨r.1, wrap r.1 (ixor r.2.1 r.2.2)⟩ := rfl
-theorem floordiv_mk (a b : Num) : Num.floordiv a b = coerce2 a b >>= fun r =>
+theorem add_mk (s t : Ty) (x y : Int) : Num.add ⟨s, x⟩ ⟨t, y⟩ = coerce2 ⟨s, x⟩ ⟨t, y⟩ >>= fun r => .ok ⟨r.1, wrap r.1 (r.2.1 + r.2.2)⟩ := rfl
+theorem sub_mk (s t : Ty) (x y : Int) : Num.sub ⟨s, x⟩ ⟨t, y⟩ = coerce2 ⟨s, x⟩ ⟨t, y⟩ >>= fun r => .ok ⟨r.1, wrap r.1 (r.2.1 - r.2.2)⟩ := rfl
+theorem mul_mk (s t : Ty) (x y : Int) : Num.mul ⟨s, x⟩ ⟨t, y⟩ = coerce2 ⟨s, x⟩ ⟨t, y⟩ >>= fun r => .ok ⟨r.1, wrap r.1 (r.2.1 * r.2.2)⟩ := rfl
+theorem and_mk (s t : Ty) (x y : Int) : Num.and ⟨s, x⟩ ⟨t, y⟩ = coerce2 ⟨s, x⟩ ⟨t, y⟩ >>= fun r => .ok ⟨r.1, wrap r.1 (iand r.2.1 r.2.2)⟩ := rfl
+theorem or_mk (s t : Ty) (x y : Int) : Num.or ⟨s, x⟩ ⟨t, y⟩ = coerce2 ⟨s, x⟩ ⟨t, y⟩ >>= fun r => .ok ⟨r.1, wrap r.1 (ior r.2.1 r.2.2)⟩ := rfl
+theorem xor_mk (s t : Ty) (x y : Int) : Num.xor ⟨s, x⟩ ⟨t, y⟩ = coerce2 ⟨s, x⟩ ⟨t, y⟩ >>= fun r => .ok ⟨r.1, wrap r.1 (ixor r.2.1 r.2.2)⟩ := rfl
+theorem floordiv_mk (s t : Ty) (x y : Int) : Num.floordiv ⟨s, x⟩ ⟨t, y⟩ = coerce2 ⟨s, x⟩ ⟨t, y⟩ >>= fun r =>
     if r.2.2 = 0 then (if r.1 = .py then .error .zerodiv else .ok ⟨r.1, 0⟩)
     else .ok ⟨r.1, wrap r.1 (Int.fdiv r.2.1 r.2.2)⟩ := rfl
-theorem mod_mk (a b : Num) : Num.mod a b = coerce2 a b >>= fun r =>
+theorem mod_mk (s t : Ty) (x y : Int) : Num.mod ⟨s, x⟩ ⟨t, y⟩ = coerce2 ⟨s, x⟩ ⟨t, y⟩ >>= fun r =>
     if r.2.2 = 0 then (if r.1 = .py then .error .zerodiv else .ok ⟨r.1, 0⟩)
     else .ok ⟨r.1, wrap r.1 (Int.fmod r.2.1 r.2.2)⟩ := rfl
-theorem shl_mk (a b : Num) : Num.shl a b = coerce2 a b >>= fun r =>
+theorem shl_mk (s t : Ty) (x y : Int) : Num.shl ⟨s, x⟩ ⟨t, y⟩ = coerce2 ⟨s, x⟩ ⟨t, y⟩ >>= fun r =>
     if r.1 = .py then (if r.2.2 < 0 then .error .value else .ok ⟨r.1, r.2.1 * 2 ^ r.2.2.toNat⟩)
     else if 0 ≤ r.2.2 ∧ r.2.2 < r.1.bits then .ok ⟨r.1, wrap r.1 (r.2.1 * 2 ^ r.2.2.toNat)⟩
     else .ok ⟨r.1, 0⟩ := rfl
-theorem shr_mk (a b : Num) : Num.shr a b = coerce2 a b >>= fun r =>
+theorem shr_mk (s t : Ty) (x y : Int) : Num.shr ⟨s, x⟩ ⟨t, y⟩ = coerce2 ⟨s, x⟩ ⟨t, y⟩ >>= fun r =>
     if r.1 = .py then (if r.2.2 < 0 then .error .value else .ok ⟨r.1, r.2.1 / 2 ^ r.2.2.toNat⟩)
     else if 0 ≤ r.2.2 ∧ r.2.2 < r.1.bits then .ok ⟨r.1, r.2.1 / 2 ^ r.2.2.toNat⟩
     else .ok ⟨r.1, if r.2.1 < 0 then -1 else 0⟩ := rfl
-theorem pow_mk (a b : Num) : Num.pow a b = coerce2 a b >>= fun r =>
+theorem pow_mk (s t : Ty) (x y : Int) : Num.pow ⟨s, x⟩ ⟨t, y⟩ = coerce2 ⟨s, x⟩ ⟨t, y⟩ >>= fun r =>
     if r.2.2 < 0 then (if r.1 = .py then .error .unsupported else .error .value)
     else .ok ⟨r.1, wrap r.1 (r.2.1 ^ r.2.2.toNat)⟩ := rfl
 
 theorem neg_mk (t : Ty) (x : Int) : Num.neg ⟨t, x⟩ = .ok ⟨t, wrap t (-x)⟩ := rfl
-theorem pos_mk (a : Num) : Num.pos a = .ok a := rfl
+theorem pos_mk (t : Ty) (x : Int) : Num.pos ⟨t, x⟩ = .ok ⟨t, x⟩ := rfl
 theorem invert_mk (t : Ty) (x : Int) : Num.invert ⟨t, x⟩ = .ok ⟨t, wrap t (-x - 1)⟩ := rfl
 theorem abs_mk (t : Ty) (x : Int) : Num.abs ⟨t, x⟩ = .ok ⟨t, wrap t (if x < 0 then -x else x)⟩ := rfl
 theorem int_mk (t : Ty) (x : Int) : Num.int ⟨t, x⟩ = .ok ⟨.py, x⟩ := rfl
@@ -98,6 +176,88 @@ theorem fdiv_pos (x y : Int) (hy : 0 < y) : Int.fdiv x y = x / y :=
 theorem fmod_pos (x y : Int) (hy : 0 < y) : Int.fmod x y = x % y :=
   Int.fmod_eq_emod_of_nonneg x (Int.le_of_lt hy)
 
+/-! ### bitwise operations on two's-complement integers -/
+
+
+theorem natLdiff_testBit (m n i : Nat) : (natLdiff m n).testBit i = (m.testBit i && !n.testBit i) := by
+  unfold natLdiff; rw [Nat.testBit_bitwise (by rfl)]
+
+theorem natLdiff_mask (n m : Nat) : natLdiff (2 ^ n - 1) m = 2 ^ n - 1 - m % 2 ^ n := by
+  apply Nat.eq_of_testBit_eq
+  intro i
+  have hlt : m % 2 ^ n < 2 ^ n := Nat.mod_lt _ (Nat.two_pow_pos n)
+  have : 2 ^ n - 1 - m % 2 ^ n = 2 ^ n - (m % 2 ^ n + 1) := by omega
+  rw [this, Nat.testBit_two_pow_sub_succ hlt, natLdiff_testBit, Nat.testBit_two_pow_sub_one, Nat.testBit_mod_two_pow]
+  cases decide (i < n) <;> simp
+
+theorem cast_two_pow (n : Nat) : ((2 ^ n : Nat) : Int) = (2 : Int) ^ n := by push_cast; rfl
+
+/-- `x & (2^n - 1) = x mod 2^n` for every (also negative) integer -/
+theorem iand_mask (x : Int) (n : Nat) : iand x (2 ^ n - 1) = x % 2 ^ n := by
+  have h2 := cast_two_pow n
+  have hpos := Nat.two_pow_pos n
+  have hp : (2 : Int) ^ n - 1 = ((2 ^ n - 1 : Nat) : Int) := by omega
+  rw [hp]
+  cases x with
+  | ofNat m =>
+    show ((m &&& (2 ^ n - 1) : Nat) : Int) = _
+    rw [Nat.and_two_pow_sub_one_eq_mod, ← h2]; simp
+  | negSucc m =>
+    show ((natLdiff (2 ^ n - 1) m : Nat) : Int) = _
+    rw [natLdiff_mask, Int.negSucc_emod m (Int.pow_pos (by decide)), ← h2]
+    have hlt : m % 2 ^ n < 2 ^ n := Nat.mod_lt _ (Nat.two_pow_pos n)
+    have : ((m % 2 ^ n : Nat) : Int) = (m : Int) % ((2 ^ n : Nat) : Int) := by simp
+    omega
+
+
+
+theorem nat_and_two_pow (n k : Nat) : n &&& 2 ^ k = if n.testBit k then 2 ^ k else 0 := by
+  apply Nat.eq_of_testBit_eq
+  intro i
+  rw [Nat.testBit_and, Nat.testBit_two_pow]
+  by_cases h : k = i
+  · subst h; cases hb : n.testBit k <;> simp
+  · cases hb : n.testBit k <;> simp [h]
+
+theorem natLdiff_two_pow (k m : Nat) : natLdiff (2 ^ k) m = if m.testBit k then 0 else 2 ^ k := by
+  apply Nat.eq_of_testBit_eq
+  intro i
+  rw [natLdiff_testBit, Nat.testBit_two_pow]
+  by_cases h : k = i
+  · subst h; cases hb : m.testBit k <;> simp
+  · cases hb : m.testBit k <;> simp [h]
+
+/-- `x & 2^k` is `2^k` when bit `k` of the two's-complement pattern of `x` is set, else `0` -/
+theorem iand_two_pow (x : Int) (k : Nat) : iand x (2 ^ k) = if (x / 2 ^ k) % 2 = 1 then 2 ^ k else 0 := by
+  have hp : (2 : Int) ^ k = ((2 ^ k : Nat) : Int) := by push_cast; rfl
+  have hpos := Nat.two_pow_pos k
+  rw [hp]
+  cases x with
+  | ofNat m =>
+    show ((m &&& 2 ^ k : Nat) : Int) = _
+    rw [nat_and_two_pow, Nat.testBit_eq_decide_div_mod_eq]
+    have : ((m / 2 ^ k % 2 : Nat) : Int) = (Int.ofNat m) / ((2 ^ k : Nat) : Int) % 2 := by simp
+    by_cases h : m / 2 ^ k % 2 = 1
+    · have h' : (Int.ofNat m) / ((2 ^ k : Nat) : Int) % 2 = 1 := by omega
+      rw [if_pos h']; simp only [h, decide_true, if_true]
+    · have h' : ¬ (Int.ofNat m) / ((2 ^ k : Nat) : Int) % 2 = 1 := by omega
+      rw [if_neg h']; simp only [h, decide_false, Bool.false_eq_true, if_false]; rfl
+  | negSucc m =>
+    show ((natLdiff (2 ^ k) m : Nat) : Int) = _
+    rw [natLdiff_two_pow, Nat.testBit_eq_decide_div_mod_eq, Int.negSucc_ediv m (by omega)]
+    have : ((m / 2 ^ k % 2 : Nat) : Int) = (m : Int) / ((2 ^ k : Nat) : Int) % 2 := by simp
+    have e : (m : Int).ediv ((2 ^ k : Nat) : Int) = (m : Int) / ((2 ^ k : Nat) : Int) := rfl
+    rw [e]
+    by_cases h : m / 2 ^ k % 2 = 1
+    · have h' : ¬ (-((m : Int) / ((2 ^ k : Nat) : Int) + 1)) % 2 = 1 := by omega
+      rw [if_neg h']; simp only [h, decide_true, if_true]; rfl
+    · have h' : (-((m : Int) / ((2 ^ k : Nat) : Int) + 1)) % 2 = 1 := by omega
+      rw [if_pos h']; simp only [h, decide_false, Bool.false_eq_true, if_false]
+
+theorem iand_natCast (m n : Nat) : iand (m : Int) (n : Int) = ((m &&& n : Nat) : Int) := rfl
+theorem ior_natCast (m n : Nat) : ior (m : Int) (n : Int) = ((m ||| n : Nat) : Int) := rfl
+theorem ixor_natCast (m n : Nat) : ixor (m : Int) (n : Int) = ((m ^^^ n : Nat) : Int) := rfl
+
 theorem two_pow_toNat_pos (n : Int) : (0 : Int) < 2 ^ n.toNat := Int.pow_pos (by decide)
 
 end VelaVerif.PyRt
@@ -112,14 +272,14 @@ macro "py_side" : tactic =>
 open VelaVerif.PyRt in
 /-- symbolic execution of translated definitions; the argument lists the definitions to unfold -/
 macro "py_exec" "[" defs:Lean.Parser.Tactic.simpLemma,* "]" : tactic =>
-  `(tactic| simp (disch := py_side) only [$defs,*,
-      bind_ok, bind_err, pure_eq, bind_ite, pyAssert_true, pyAssert_false, pyAssert_decide,
-      wrap_py, wrap_id, coerce2_py_py, coerce2_py_np, coerce2_np_py, coerce2_np_np, promote,
+  `(tactic| simp (disch := py_side) only [$defs,*, ↓bindStep,
+      bind_ok, bind_err, pure_eq, bind_ite, ebind_ok, ebind_err, epure_eq, ebind_ite, ethrow_eq, pyAssert_true, pyAssert_false, pyAssert_decide,
+      wrap_py, wrap_i8, wrap_i16, wrap_i32, wrap_i64, wrap_u8, wrap_u16, wrap_u32, coerce2_py_py, coerce2_py_np, coerce2_np_py, coerce2_np_np, promote,
       add_mk, sub_mk, mul_mk, and_mk, or_mk, xor_mk, floordiv_mk, mod_mk, shl_mk, shr_mk, pow_mk,
       neg_mk, pos_mk, invert_mk, abs_mk, int_mk, lt_mk, le_mk, gt_mk, ge_mk, eq_mk, ne_mk, truthy_mk,
       min_mk, max_mk, cast_py, cast_np, fdiv_pos, fmod_pos,
-      if_pos, if_neg, ite_true, ite_false, if_true, if_false,
-      Bool.and_eq_true, Bool.or_eq_true, Bool.not_eq_true', decide_eq_true_eq, decide_eq_false_iff_not,
+      ite_true, ite_false, if_true, if_false, fits_eq_true, fits_eq_false, true_and, and_true, and_self, not_true_eq_false, not_false_eq_true,
+      Bool.and_eq_true, Bool.or_eq_true, Bool.not_eq_true', decide_eq_true_eq, decide_eq_false_iff_not, beq_iff_eq, bne_iff_ne,
       Bool.true_and, Bool.and_true, Bool.false_or, Bool.or_false, Bool.not_true, Bool.not_false,
       decide_true, decide_false, reduceCtorEq, ne_eq, not_false_eq_true, not_true_eq_false,
       Int.reduceNeg, Int.reducePow, Int.reduceMul, Int.reduceAdd, Int.reduceSub, Int.reduceToNat,
@@ -136,4 +296,6 @@ macro "py_finish" : tactic =>
       | rfl
       | contradiction
       | omega
-      | (simp only [Except.ok.injEq, Except.error.injEq, Num.mk.injEq, true_and, and_true, reduceCtorEq] <;> omega)))
+      | trivial
+      | (simp only [Except.ok.injEq, Except.error.injEq, Num.mk.injEq, true_and, and_true, reduceCtorEq,
+          agrees_ok, agrees_err, agrees_ok_err, agrees_err_ok] <;> first | trivial | omega)))
